@@ -253,7 +253,11 @@ func c07(raw json.RawMessage, resp *drv.Response) error {
 		return nil
 	case "reduce":
 		lim := new(big.Int).Mul(pow2(144), bigP) // exclusive
-		vals := []*big.Int{big.NewInt(0), new(big.Int).Sub(bigP, one), new(big.Int).Set(bigP), new(big.Int).Add(bigP, one), two64, pow2(128), pow2(191),
+		m64 := new(big.Int).Sub(two64, one)
+		vals := []*big.Int{new(big.Int).Mul(bigP, two64), new(big.Int).Add(new(big.Int).Mul(bigP, two64), big.NewInt(12345)), new(big.Int).Sub(pow2(128), one),
+			new(big.Int).Mul(m64, m64), new(big.Int).Mul(new(big.Int).Sub(bigP, one), new(big.Int).Sub(bigP, one)), pow2(127), new(big.Int).Sub(pow2(96), one), pow2(96),
+			new(big.Int).Sub(new(big.Int).Mul(bigP, two64), one),
+			big.NewInt(0), new(big.Int).Sub(bigP, one), new(big.Int).Set(bigP), new(big.Int).Add(bigP, one), two64, pow2(128), pow2(191),
 			new(big.Int).Sub(lim, one), new(big.Int).Sub(lim, bigP), new(big.Int).Sub(new(big.Int).Mul(pow2(143), bigP), one)}
 		for i := 0; i < 20+req.NRandom; i++ {
 			vals = append(vals, drv.RandBelow(rng, lim))
